@@ -134,7 +134,7 @@ func (c Cfg) Script(topic string) string {
 		fmt.Fprintf(&b, "        .flapping(%s, %s)\n", pct(c.Flo), pct(c.Fhi))
 	}
 	fmt.Fprintf(&b, "        .history(%d)\n", c.H)
-	fmt.Fprintf(&b, "        .topic('%s')\n        .levelField('l')\n        .idField('id')\n        .durationField('d')\n", topic)
+	fmt.Fprintf(&b, "        .topic('%s')\n        .levelField('l')\n        .idField('id')\n        .durationField('d')\n        .levelTag('lt')\n        .idTag('it')\n", topic)
 	b.WriteString("    |log()\n        .prefix('fwd')\n")
 	return b.String()
 }
